@@ -300,7 +300,7 @@ public:
     int nextv = 100;
     p.params = {nkeys, prefill, c09 ? 1 : 0};
     bool seq = !c09 && g.rng.chance(8); // long single-threaded sequence against the model
-    int nt = seq ? 1 : g.rng.range(2, g.tier ? 4 : 3);
+    int nt = seq ? 1 : g.rng.range(2, (g.tier || g.rng.chance(20)) ? 4 : 3);
     p.threads.resize(nt);
     for (int t = 0; t < nt; t++) {
       if (c09 && t == 0) {
@@ -515,18 +515,19 @@ inline void HMHarness::check(CheckCtx& c) {
     for (int i = 0; i < h.n; i++)
       if (h.ops[i].status < 0 && h.ops[i].kind == OP_YIELD && h.ops[i].c == id) yields.push_back(i);
     // inserts / erases by key
-    // the insertion a yielded (key,value) stems from: the latest matching one that does not start after the
-    // yield (node identities of sets can recur when lock_free_ref_count recycles a node nobody guards)
-    auto inserted_by = [&](int k, int v, const OpRec& y) -> int {
-      int best = -1;
+    // the insertions a yielded (key,value) may stem from: every matching one that does not start after the yield
+    // (node identities of sets recur when lock_free_ref_count - or the allocator - recycles a node, so there can
+    // be several; the yield is justified if one of them is)
+    auto inserted_by = [&](int k, int v, const OpRec& y) -> std::vector<int> {
+      std::vector<int> r;
       for (int i = 0; i < h.n; i++) {
         const OpRec& o = h.ops[i];
         if (o.status != 1 || o.a != k) continue;
         if ((o.kind == OP_EMPLACE || o.kind == OP_EMPLACE_OR_GET || o.kind == OP_GET_OR_EMPLACE || o.kind == OP_GET_OR_EMPLACE_LAZY) &&
             (is_map ? o.b : o.r0) == v && !h.precedes(y, o))
-          if (best < 0 || h.ops[best].inv < o.inv) best = i;
+          r.push_back(i);
       }
-      return best;
+      return r;
     };
     for (size_t a = 0; a < yields.size(); a++) {
       const OpRec& y = h.ops[yields[a]];
@@ -544,18 +545,24 @@ inline void HMHarness::check(CheckCtx& c) {
           if (!reinserted) return c.fail("iterator-duplicate", "traversal yielded element (%ld,%ld) twice", (long)y.a, (long)y.b);
         }
       }
-      int I = inserted_by((int)y.a, (int)y.b, y);
-      if (I < 0) return c.fail("iterator-invented", "traversal yielded (%ld,%ld) which was never inserted", (long)y.a, (long)y.b);
-      // definitely absent for the whole window [T.inv, yield]: some successful erase of the key after the
-      // insertion completed and finished before the traversal began
-      for (int e = 0; e < h.n; e++) {
-        const OpRec& E = h.ops[e];
-        bool is_erase = (E.kind == OP_ERASE && E.status == 1) || (E.kind == OP_ERASE_POS && E.b == y.b);
-        if (!is_erase || E.a != y.a) continue;
-        if (E.kind == OP_ERASE_POS && E.c == id) continue; // our own erase through the iterator
-        if (h.precedes(h.ops[I], E) && h.precedes(E, T))
-          return c.fail("iterator-stale", "traversal yielded (%ld,%ld) although it had been erased before the traversal began", (long)y.a, (long)y.b);
+      std::vector<int> cand = inserted_by((int)y.a, (int)y.b, y);
+      if (cand.empty()) return c.fail("iterator-invented", "traversal yielded (%ld,%ld) which was never inserted", (long)y.a, (long)y.b);
+      // definitely absent for the whole window [T.inv, yield]: for every insertion it may stem from, some successful
+      // erase of the key after that insertion completed and finished before the traversal began
+      bool justified = false;
+      for (int I : cand) {
+        bool erased_before = false;
+        for (int e = 0; e < h.n && !erased_before; e++) {
+          const OpRec& E = h.ops[e];
+          bool is_erase = (E.kind == OP_ERASE && E.status == 1) || (E.kind == OP_ERASE_POS && E.b == y.b);
+          if (!is_erase || E.a != y.a) continue;
+          if (E.kind == OP_ERASE_POS && E.c == id) continue; // our own erase through the iterator
+          if (h.precedes(h.ops[I], E) && h.precedes(E, T)) erased_before = true;
+        }
+        if (!erased_before) justified = true;
       }
+      if (!justified)
+        return c.fail("iterator-stale", "traversal yielded (%ld,%ld) although it had been erased before the traversal began", (long)y.a, (long)y.b);
     }
     // completeness: elements present during the whole traversal must be yielded
     for (int i = 0; i < h.n; i++) {
